@@ -63,6 +63,8 @@ func newFnScope(info *types.Info, body ast.Node) *fnScope {
 				if n.Tok == token.ASSIGN || n.Tok == token.DEFINE {
 					if len(n.Rhs) == len(n.Lhs) {
 						s.defs[o] = append(s.defs[o], n.Rhs[i])
+					} else if len(n.Rhs) == 1 {
+						s.defs[o] = append(s.defs[o], n.Rhs[0]) // tuple-valued call / comma-ok
 					} else {
 						s.defs[o] = append(s.defs[o], nil)
 					}
